@@ -20,6 +20,7 @@ import (
 	"context"
 	"errors"
 	"fmt"
+	"math"
 	stdnet "net"
 	"os"
 	"path/filepath"
@@ -661,10 +662,10 @@ func (stub *stub) Configure(ctx context.Context, req *api.ConfigureRequest) (rpl
 
 	// A runtime which does not send its timeouts leaves ours unchanged.
 	if req.RegistrationTimeout > 0 {
-		stub.registrationTimeout = time.Duration(req.RegistrationTimeout * int64(time.Millisecond))
+		stub.registrationTimeout = millisecondsToDuration(req.RegistrationTimeout)
 	}
 	if req.RequestTimeout > 0 {
-		stub.requestTimeout = time.Duration(req.RequestTimeout * int64(time.Millisecond))
+		stub.requestTimeout = millisecondsToDuration(req.RequestTimeout)
 	}
 
 	if handler := stub.handlers.Configure; handler == nil {
@@ -695,6 +696,15 @@ func (stub *stub) Configure(ctx context.Context, req *api.ConfigureRequest) (rpl
 	return &api.ConfigureResponse{
 		Events: int32(events),
 	}, nil
+}
+
+// millisecondsToDuration converts a positive number of milliseconds, keeping
+// values too large for a Duration at the largest one instead of wrapping.
+func millisecondsToDuration(ms int64) time.Duration {
+	if ms > math.MaxInt64/int64(time.Millisecond) {
+		return time.Duration(math.MaxInt64)
+	}
+	return time.Duration(ms) * time.Millisecond
 }
 
 // Synchronize the state of the plugin with the runtime. The chunks of a split
